@@ -49,7 +49,7 @@ def _report(ctx, bad, extra=None):
 
 # ------------------------------------------------------------------ pool workers
 def _vol_chunk(args):
-    base, lines, seed, rdm_mod = args
+    base, lines, seed, rdm_mod, deep = args
     out = []
     n_eval = 0
     nontriv = []
@@ -66,9 +66,15 @@ def _vol_chunk(args):
             nontriv.append(i)
         if nc and (i + seed) % rdm_mod == 0:
             m = S.RDM_METHODS[(i // rdm_mod + seed) % len(S.RDM_METHODS)]
+            reps, orders = None, S.ORDERS
+            if deep:        # thorough: event designs (2-5 conditions, single / unequal repetitions), six orders
+                reps = S.EVENT_DESIGNS[(i // 11 + seed) % len(S.EVENT_DESIGNS)]
+                if not S.design_ok(reps, m):
+                    reps = S.EVENT_DESIGNS[(i // 11 + seed) % 5]          # the balanced ones
+                orders = S.ORDERS_MORE
             b2, _ = S.check_rdms(tuple(rec['shape']), rec['centres'], rec['neigh'], m, variant=variant,
                                  seed=seed * 7919 + i, dtype=S.DATA_DTYPES[(i // 3 + seed) % len(S.DATA_DTYPES)],
-                                 order=S.ORDERS[(i // 7 + seed) % 3])
+                                 order=orders[(i // 7 + seed) % len(orders)], reps=reps)
             for k, w, d in b2:
                 d = dict(d)
                 d.update({'mask': rec['mask'], 'radius': rec['rad'], 'threshold': rec['thr']})
@@ -125,8 +131,14 @@ def model_chunks(ctx, thorough):
 
 
 def replay_nb(ctx, thorough):
-    for nbs in (['NbSmall', 'NbLarge'] if thorough else ['NbSmall']):
-        r = ctx.tlc('MC_Searchlight', S.cfg('nb', nbshapes=nbs, radii='RMany'), name=f'nb_{nbs}', workers=8)
+    runs = [('NbSmall', 'RMany', 1)]
+    if thorough:
+        # radius == distance: irrational radii sqrt(2), sqrt(3), .. and integer radii with off-axis lattice points on
+        # the sphere, a hair below / above them; volumes larger than the largest sphere (every 5th centre)
+        runs += [('NbLarge', 'RMany', 1), ('NbLarge', 'RBound', 1), ('NbSmall', 'RBound', 1), ('NbHuge', 'RBound', 5)]
+    for nbs, radii, mod in runs:
+        r = ctx.tlc('MC_Searchlight', S.cfg('nb', nbshapes=nbs, radii=radii, emitmod=mod), name=f'nb_{nbs}_{radii}',
+                    workers=16 if thorough else 8, timeout=1700)
         if not r.n_emitted:
             raise MachineryError('TLC emitted no neighbour vectors')
         jobs, base = [], 0
@@ -142,15 +154,21 @@ def replay_nb(ctx, thorough):
         ctx.sample(next(r.iter_emitted()))
 
 
-def replay_vol(ctx, shapes, emitmod, rdm_mod, name):
-    r = ctx.tlc('MC_Searchlight', S.cfg('vol', shapes=shapes, emitmod=emitmod), name=name, timeout=1700)
+def replay_vol(ctx, shapes, emitmod, rdm_mod, name, *, mode='vol', radii='R4', thresholds='T3', simulate=None,
+               depth=None, seed=None):
+    kw = {}
+    if simulate:
+        kw = dict(simulate=simulate, depth=depth, seed=seed, workers=16)
+    r = ctx.tlc('MC_Searchlight', S.cfg(mode, shapes=shapes, emitmod=emitmod, radii=radii, thresholds=thresholds),
+                name=name, timeout=1700, **kw)
     if not r.n_emitted:
         raise MachineryError('TLC emitted no volume cases')
+    deep = ctx.tier == 'thorough'
 
     def jobs():
         base = 0
         for chunk in r.iter_lines(300):
-            yield (base, chunk, ctx.seed, rdm_mod)
+            yield (base, chunk, ctx.seed, rdm_mod, deep)
             base += len(chunk)
     total = 0
     with mp.Pool(16) as pool:
@@ -189,7 +207,10 @@ def replay_big(ctx, thorough):
         for mi, (m, dt) in enumerate(combos):
             b2, info = S.check_rdms(shape, rec['centres'], rec['neigh'], m, variant=ctx.seed + k + mi,
                                     seed=ctx.seed * 31 + k, dtype=dt,
-                                    order=S.ORDERS[(mi + k + ctx.seed) % 3])   # >= 2 runs per case: never all ascending
+                                    # >= 2 runs per case: never all ascending ('subset' would leave the chunked branch)
+                                    order=(S.ORDERS + ['rotated', 'interleaved'] if thorough else S.ORDERS)[
+                                        (mi + k + ctx.seed) % (5 if thorough else 3)],
+                                    reps=S.EVENT_DESIGNS[(mi + k) % 5] if thorough else None)
             ctx.count(len(rec['centres']))
             _report(ctx, b2, {'radius': rec['rad'], 'threshold': rec['thr'], 'n_mask': len(rec['mask'])})
             if not b2 and info.get('chunks') is not None:
@@ -228,11 +249,18 @@ def eval_models(ctx, rec, thorough):
     with S.quiet():
         rdms = sl.get_searchlight_RDMs(data, np.array(rec['centres'][:n]), [np.array(x) for x in rec['neigh'][:n]],
                                        events, method='euclidean')
-    bad, nev = S.check_eval(rdms, (1, 2, 4) if not thorough else (1, 2, 3, 4, 8))
-    ctx.count(nev * n)
-    ctx.traces += nev
-    _report(ctx, bad)
-    ctx.extra['eval_runs'] = nev
+    # quick: one (non-default) comparison method rotating with the seed; thorough: every vector method x every
+    # model class x more n_jobs
+    methods = ['cosine', 'corr', 'spearman', 'rho-a', 'tau-a', 'corr_cov', 'cosine_cov']
+    total = 0
+    for mi, method in enumerate(methods if thorough else [methods[ctx.seed % 2]]):
+        jobs = (1, 2, 4) if not thorough else ((1, 2, 3, 4, 8) if mi == 0 else (1, 2 + mi % 3))
+        bad, nev = S.check_eval(rdms, jobs, method=method, model_types=thorough)
+        ctx.count(nev * n)
+        ctx.traces += nev
+        total += nev
+        _report(ctx, bad)
+    ctx.extra['eval_runs'] = total
 
 
 def traces(ctx, n):
@@ -256,7 +284,9 @@ def traces(ctx, n):
         d = diag[0] if diag else {}
         ev = trs[idx][d.get('l', 1) - 1] if d else {}
         dd = d.get('diag', {})
-        if dd.get('op') == 'nb':
+        if dd.get('op') == 'volraise':
+            key = f"b/volume/raises/{ev.get('error', 'Exception')}/trace"
+        elif dd.get('op') == 'nb':
             key = 'a/neighbours/membership/trace'
         elif dd.get('centres_ok') is False:
             key = 'b/centres/trace'
@@ -334,6 +364,8 @@ def run(ctx):
                        'later centres first',
                        'an empty set of accepted centres makes get_volume_searchlight raise (numpy.ravel_multi_index '
                        'on an empty list); counted as unsupported, not demanded by the property']
+    _report(ctx, S.check_error_branches())
+    ctx.count(2)
     model_schedules(ctx, thorough)
     model_chunks(ctx, thorough)
     replay_nb(ctx, thorough)
@@ -346,6 +378,24 @@ def run(ctx):
         for sh in ('S232', 'S223'):
             _, n = replay_vol(ctx, sh, 1, 16, f'vol_{sh}')
             total += n
+        # every mask of the 3 x 3 x 2 volume (2^18) for a half-integer and an irrational radius
+        _, n = replay_vol(ctx, 'S332', 1, 400, 'vol_S332', radii='R332', thresholds='T1')
+        total += n
+        _, n = replay_vol(ctx, 'S422', 1, 100, 'vol_S422', radii='R332', thresholds='T1')
+        total += n
+        # mask topologies on larger / anisotropic volumes: holes, single voxels, disconnected slabs, shells,
+        # interiors that never touch the border, checkerboards, balls x 10 radii x 5 thresholds
+        _, n = replay_vol(ctx, 'STopo', 1, 6, 'topo', mode='topo', radii='RTopo', thresholds='TTopo')
+        total += n
+        ctx.extra['topology_cases_replayed'] = n
+        # random walks over the masks of 45/48-voxel volumes (tlc -simulate), four seeds
+        nw = 0
+        for j in range(4):
+            _, n = replay_vol(ctx, 'SWalk', 2, 25, f'walk_{j}', mode='walk', radii='RWalk', thresholds='TTopo',
+                              simulate='num=100', depth=80, seed=ctx.seed * 10 + j + 1)
+            nw += n
+        total += nw
+        ctx.extra['random_walk_cases_replayed'] = nw
     ctx.extra['volume_cases_replayed'] = total
     keep = replay_big(ctx, thorough)
     eval_models(ctx, keep, thorough)
